@@ -479,6 +479,80 @@ theorem T_C20_project_add_label (tol : Rat) (h new : List Nat) (hh : 0 < h.lengt
 
 example : 0 < ([0, 1] : List Nat).length ∧ ([0, 1] : List Nat).Nodup := by decide
 
+/-! ### round 5: guards of functions and constructors outside the first catalogue -/
+
+/-- `curve.get_point(p)` / `discretize`: rejected iff the parameter leaves `[lo, hi]` on either side -/
+theorem T_C20_curve_param (tol p lo hi : Rat) :
+    (run tol (.curveParam p lo hi)).isReject = true ↔ ¬ (lo ≤ p ∧ p ≤ hi) := by
+  simp only [run, checks_isReject, List.any_cons, List.any_nil, Bool.or_false,
+    Bool.not_eq_true', Bool.and_eq_false_iff, decide_eq_false_iff_not]
+  constructor
+  · rintro (h | h) ⟨h1, h2⟩
+    · exact h h1
+    · exact h h2
+  · intro h
+    by_cases h1 : lo ≤ p
+    · right; intro h2; exact h ⟨h1, h2⟩
+    · left; exact h1
+
+/-- `polyline_length(points)`: rejected iff the points are not an n × 3 array with n ≥ 2 -/
+theorem T_C20_polyline_shape (tol : Rat) (dims : List Nat) :
+    (run tol (.polylineShape dims)).isReject = true ↔ ¬ (∃ n, dims = [n, 3] ∧ 2 ≤ n) := by
+  match dims with
+  | [] => simp [run, Out.isReject]
+  | [a] => simp [run, Out.isReject]
+  | [n, m] =>
+      simp only [run, checks_isReject, List.any_cons, List.any_nil, Bool.or_false, Bool.or_eq_true,
+        beq_iff_eq, bne_iff_ne, decide_eq_true_eq, List.cons.injEq, and_true]
+      constructor
+      · rintro h ⟨k, ⟨rfl, rfl⟩, hk⟩; omega
+      · intro h
+        by_contra hc
+        apply h
+        exact ⟨n, ⟨rfl, by omega⟩, by omega⟩
+  | a :: b :: c :: rest => simp [run, Out.isReject]
+
+/-- `to_cartesian(point, direction, axis)`: rejected iff the direction is not ±1 or the axis not 'x' / 'z' -/
+theorem T_C20_polar_args (tol : Rat) (direction : Int) (axis : String) :
+    (run tol (.polarArgs direction axis)).isReject = true ↔
+      ¬ ((direction = -1 ∨ direction = 1) ∧ (axis = "x" ∨ axis = "z")) := by
+  simp only [run, checks_isReject, List.any_cons, List.any_nil, Bool.or_false, Bool.or_eq_true,
+    Bool.not_eq_true', Bool.or_eq_false_iff, beq_eq_false_iff_ne]
+  tauto
+
+/-- `RotationLink`: rejected iff the leader is closer than `tol` to the rotation axis (squared form, |axis|² cleared) -/
+theorem T_C20_rotation_link (tol : Rat) (leader origin axis : V3) :
+    (run tol (.rotationLink leader origin axis)).isReject = true ↔
+      ¬ (tol * tol * V3.norm2 axis ≤ V3.norm2 (leader - origin) * V3.norm2 axis
+            - V3.dot (leader - origin) axis * V3.dot (leader - origin) axis) := by
+  simp only [run, checks_isReject, List.any_cons, List.any_nil, Bool.or_false, decide_eq_true_eq, not_le]
+
+/-- the squared form is the coded comparison `norm(radius vector) < TOL`: for every root `s > 0` of `|axis|²` and
+    every non-negative root `ρ` of the squared distance `|d|² − (d·axis / s)²` of the leader from the axis -/
+theorem T_C20_rotation_link_squared (tol s ρ : Rat) (d axis : V3) (hs : 0 < s) (hss : s * s = V3.norm2 axis)
+    (hρ : 0 ≤ ρ) (hρρ : ρ * ρ = V3.norm2 d - (V3.dot d axis / s) * (V3.dot d axis / s)) (htol : 0 ≤ tol) :
+    ρ < tol ↔ V3.norm2 d * V3.norm2 axis - V3.dot d axis * V3.dot d axis < tol * tol * V3.norm2 axis := by
+  have hne : s ≠ 0 := ne_of_gt hs
+  have e : V3.dot d axis / s * s = V3.dot d axis := div_mul_cancel₀ _ hne
+  have key : V3.norm2 d * V3.norm2 axis - V3.dot d axis * V3.dot d axis = (ρ * ρ) * (s * s) := by
+    rw [hρρ, ← hss]
+    have : (V3.norm2 d - V3.dot d axis / s * (V3.dot d axis / s)) * (s * s)
+        = V3.norm2 d * (s * s) - (V3.dot d axis / s * s) * (V3.dot d axis / s * s) := by ring
+    rw [this, e]
+  rw [key, ← hss, lt_iff_sq_lt hρ htol]
+  have hpos : 0 < s * s := mul_pos hs hs
+  constructor
+  · intro h; exact mul_lt_mul_of_pos_right h hpos
+  · intro h; exact lt_of_mul_lt_mul_right h hpos.le
+
+example : (0 : Rat) < 3 ∧ (3 : Rat) * 3 = V3.norm2 ⟨1, 2, 2⟩ ∧ (0 : Rat) ≤ 3 ∧
+    (3 : Rat) * 3 = V3.norm2 ⟨2, 1, -2⟩ - (V3.dot ⟨2, 1, -2⟩ ⟨1, 2, 2⟩ / 3) * (V3.dot ⟨2, 1, -2⟩ ⟨1, 2, 2⟩ / 3) := by
+  norm_num [V3.norm2, V3.dot]
+
+theorem T_C20_elbow_chain (tol : Rat) (isDisk : Bool) :
+    (run tol (.elbowChain isDisk)).isReject = true ↔ ¬ (isDisk = true) := by
+  cases isDisk <;> simp [run, checks_isReject]
+
 /-! ### the whole catalogue in one statement -/
 
 /-- **Every guard of the catalogue rejects exactly the calls that violate the documented precondition**, for every
@@ -531,6 +605,18 @@ theorem T_C20_enforced (tol : Rat) (c : Call) (hwf : wf c = true) :
       simp only [wf, Bool.and_eq_true, decide_eq_true_eq] at hwf
       rw [T_C20_stack_slice tol axis idx n0 n1 n2 hwf.1 hwf.2]
       exact not_iff_bnot (by simp [pre, inRange, and_assoc])
+  | curveParam p lo hi => rw [T_C20_curve_param]; exact not_iff_bnot (by simp [pre])
+  | polylineShape dims =>
+      rw [T_C20_polyline_shape]
+      refine not_iff_bnot ?_
+      match dims with
+      | [] => simp [pre]
+      | [a] => simp [pre]
+      | [n, m] => simp [pre]
+      | a :: b :: c :: rest => simp [pre]
+  | polarArgs direction axis => rw [T_C20_polar_args]; exact not_iff_bnot (by simp [pre])
+  | rotationLink leader origin axis => rw [T_C20_rotation_link]; exact not_iff_bnot (by simp [pre])
+  | elbowChain isDisk => rw [T_C20_elbow_chain]; exact not_iff_bnot (by simp [pre])
 
 example : wf (.stackSlice 1 2 2 3 4) = true ∧ wf (.projectAddLabel [0] [1, 2]) = true := by decide
 
@@ -846,5 +932,49 @@ example : (projRun emptyP [.pside "front" 0 true, .pside "right" 1 true, .pedge 
       = [.accept, .accept, .accept] ∧
     (projRun emptyP [.pedge 0 1 [0], .pedge 1 0 [1], .pedge 0 1 [2]]).map (·.1)
       = [.accept, .accept, .reject "EdgeCreationError"] := by decide
+
+/-! ### round 5: what a rejected call leaves behind (model of the code as it is; compared after every call by the
+correspondence: clamp holders per vertex, labels per edge) -/
+
+/-- a rejected `add_clamp` leaves the clamps as they were -/
+theorem T_C20_clamp_reject_unchanged (tol : Rat) (pts : List V3) (st : List Nat) (pos : V3)
+    (h : (addClamp tol pts st pos).1.isReject = true) : (addClamp tol pts st pos).2 = st := by
+  unfold addClamp at h ⊢
+  cases hf : firstNear tol pos pts 0 with
+  | none => rfl
+  | some i =>
+      by_cases hc : i ∈ st
+      · simp [hc]
+      · simp [hf, hc, Out.isReject] at h
+
+/-- a rejected `grade` / `backport` (and any other rejected call) leaves the mesh state as it was -/
+theorem T_C20_mesh_reject_unchanged (s : MeshSt) (op : MeshOp) (h : (meshStep s op).1.isReject = true) :
+    (meshStep s op).2 = s := by
+  cases op <;> simp only [meshStep, Out.isReject] at h ⊢
+  · exact absurd h (by simp)
+  · exact absurd h (by simp)
+  · exact absurd h (by simp)
+  · by_cases ha : s.assembled = true <;> simp_all
+
+/-- a rejected projection of a *fresh* edge (`Project(labels)` with 0 or more than 2 labels) leaves the edge a line … -/
+theorem T_C20_fresh_edge_reject_unchanged (new : List Nat) (h : (slotUpdate [] new).1.isReject = true) :
+    (slotUpdate [] new).2 = [] := by
+  simp only [slotUpdate, List.isEmpty_nil, if_true] at h ⊢
+  split_ifs at h ⊢ with h1
+  · simp [Out.isReject] at h
+  · rfl
+
+/-- … but `Project.add_label` appends before it checks: a rejected third label **stays on the edge object**
+    (the code's behaviour, reproduced by the model and compared by the correspondence; not a clause of the property) -/
+theorem T_C20_add_label_keeps_rejected_label :
+    (slotUpdate [0, 1] [2]).1 = .reject "EdgeCreationError" ∧ (slotUpdate [0, 1] [2]).2 = [0, 1, 2] ∧
+    ¬ ∀ stored new, (slotUpdate stored new).1.isReject = true → (slotUpdate stored new).2 = stored := by
+  refine ⟨by decide, by decide, fun h => ?_⟩
+  have := h [0, 1] [2] (by decide)
+  revert this
+  decide
+
+example : (addClamp (1 / 10000000) [⟨0, 0, 0⟩] [0] ⟨0, 0, 0⟩).1.isReject = true ∧
+    (meshStep {} .grade).1.isReject = true ∧ (slotUpdate [] [0, 1, 2]).1.isReject = true := by decide +kernel
 
 end CBV.C20
